@@ -1996,25 +1996,30 @@ static int val_int_to_str (hawk_rtx_t* rtx, const hawk_val_int_t* v, hawk_rtx_va
 			hawk_ooecs_clear (out->u.strp);
 			HAWK_ASSERT (HAWK_OOECS_LEN(out->u.strp) == 0);
 
-			/* point to the beginning of the buffer */
-			tmp = HAWK_OOECS_PTR(out->u.strp);
-
 			/* extend the buffer */
 			n = hawk_ooecs_nccat(out->u.strp, HAWK_T(' '), rlen);
 			if (n == (hawk_oow_t)-1) return -1;
+
+			/* point to the beginning of the buffer. the buffer may
+			 * have been relocated while being extended */
+			tmp = HAWK_OOECS_PTR(out->u.strp);
 			break;
 		}
 
 		case HAWK_RTX_VALTOSTR_STRPCAT:
 		{
-			hawk_oow_t n;
+			hawk_oow_t n, pos;
 
-			/* point to the insertion point */
-			tmp = HAWK_OOECS_PTR(out->u.strpcat) + HAWK_OOECS_LEN(out->u.strpcat);
+			/* remember the insertion point */
+			pos = HAWK_OOECS_LEN(out->u.strpcat);
 
 			/* extend the buffer */
 			n = hawk_ooecs_nccat(out->u.strpcat, HAWK_T(' '), rlen);
 			if (n == (hawk_oow_t)-1) return -1;
+
+			/* point to the insertion point. the buffer may
+			 * have been relocated while being extended */
+			tmp = HAWK_OOECS_PTR(out->u.strpcat) + pos;
 			break;
 		}
 
